@@ -508,7 +508,7 @@ pub fn run(args: &Args) -> Report {
     // a route answers for exactly the path it was registered under, in any registration order relative to a covering mount, and
     // for no other spelling (those belong to the mount or to nobody)
     let mut spellings = 0u64;
-    for spelled in ["/x/y/", "/x/", "/x//", "/x/y//z", "x/y", "x", "/s/", "/s/k/"] {
+    for spelled in ["/x/y/", "/x/", "/x//", "/x/y//z", "x/y", "x", "/s/", "/s/k/", "/x/größe/übersicht", "/s/日本/語", "/x/😀", "/x/ééééééééééééééééééééééééééééééééééééééééé"] {
         for order in 0..2 {
             let reg = Arc::new(Registry::new());
             reg.register_value("/y", json!("from-registry")).unwrap();
